@@ -410,6 +410,7 @@ NO_LOCATION_BASELINE = {
     "DataGenTypeError@Schedule._normalize_until",
     "DataGenValueError@UniqueId._convert",
     "DataGenSyntaxError@parse_recipe_yaml.parse_recipe",  # "nested too deeply": the RecursionError guard has no node at hand
+    "DataGenValueError@fake_data_generator.__init__",  # "Unknown locale" (fix a42b384): raised where Faker is built, no statement at hand
 }
 
 
